@@ -302,8 +302,8 @@ def complete(P, trace):
     if not all(_mask_respecting(e) for e in trace[1:]):
         return None
     S = trace[-1].S
-    if not _all_scheduled(S) or float(trace[-1].reward) != -1.0:
-        return None  # ended by the idle penalty
+    if not _all_scheduled(S):
+        return None  # ended by the idle penalty (an idle ending always leaves operations unscheduled)
     P.hit("schedule_complete")
     out = _schedule_problems(P, S, require_all=True)
     if bool(np.any(S["machines_remaining_times"] != 0)):
@@ -315,8 +315,8 @@ def objective(P, trace):
     if not all(_mask_respecting(e) for e in trace[1:]):
         return None
     S = trace[-1].S
-    if not _all_scheduled(S) or bool(np.any(S["machines_remaining_times"] != 0)) or float(trace[-1].reward) != -1.0:
-        return None  # idle-penalty endings have no objective value in the property statement
+    if not _all_scheduled(S) or bool(np.any(S["machines_remaining_times"] != 0)):
+        return None  # idle-penalty endings (operations left over) have no objective value in the property statement
     real = S["ops_machine_ids"] >= 0
     if bool(np.any(S["scheduled_times"][real] < 0)):
         return None
@@ -381,6 +381,12 @@ def policies(P):
     def list_schedule(ctx):
         """Every idle machine starts a (random) startable job: always completes the schedule."""
         m = _mask(ctx)
+        if "give_up_at" not in ctx:
+            # one episode in five stops scheduling after a few steps and only waits: the running operations
+            # finish and the documented "all machines idle" ending is reached with a partial schedule
+            ctx["give_up_at"] = int(ctx["rng"].integers(1, 8)) if ctx["rng"].random() < 0.2 else None
+        if ctx["give_up_at"] is not None and ctx["t"] >= ctx["give_up_at"]:
+            return np.asarray([J] * M, np.int32)
         act = []
         for k in range(M):
             idx = np.flatnonzero(m[k, :J])
